@@ -189,6 +189,25 @@ def library_reads(ctx, data, case):
         return None
 
 
+def earlier_calls(ctx, client, rng):
+    """The judged request is not the client's first: earlier calls with per-call overrides (another version, formatting), some of
+    them refused (2xx without end tags) or failing in transport, must leave nothing behind on the client."""
+    if rng.random() < 0.55:
+        return
+    for _ in range(rng.randint(1, 2)):
+        v = rng.choice([102, 103, 151, 160, 200, 203, 211, 220])
+        kw = {"version": v, "prettyprint": rng.choice([True, False]), "close_elements": rng.choice([True, False])}
+        ctx.count("earlier_calls_with_overrides")
+        try:
+            if rng.random() < 0.7:
+                client.request_profile(dryrun=True, **kw).read()
+            else:
+                # not a dry run: nothing listens at this address (the transport error comes after the overrides were applied)
+                client.request_profile(timeout=0.05, url="http://127.0.0.1:9/ofx", **kw).read()
+        except Exception:  # noqa: refused or failed - not judged here
+            ctx.count("earlier_calls_refused_or_failed")
+
+
 def one_statements(ctx, rng, idx):
     import ofxtools.Client as C
 
@@ -203,6 +222,7 @@ def one_statements(ctx, rng, idx):
     kw = {k: v for k, v in cfg.items() if not k.startswith("_") and v is not None}
     try:
         client = C.OFXClient("https://example.invalid/ofx", **kw)
+        earlier_calls(ctx, client, rng)
         data = client.request_statements(password, *[to_lib_request(C, r) for r in reqs], dryrun=True).read()
     except Exception as e:
         ctx.violation(f"compose-raises/{type(e).__name__}", f"request_statements raised {e!r} for cfg={kw}", case)
@@ -265,13 +285,14 @@ def one_other(ctx, rng, idx):
     ctx.add("versions", cfg["version"])
     try:
         client = C.OFXClient("https://example.invalid/ofx", **kw)
+        earlier_calls(ctx, client, rng)
         if which == "acctinfo":
             dt = values.gen_datetime(rng)
             data = client.request_accounts(password, dt, dryrun=True).read()
         elif which == "profile":
             data = client.request_profile(dryrun=True).read()
         else:
-            years = [str(rng.randint(1990, 2030)) for _ in range(rng.randint(1, 3))]
+            years = [str(rng.randint(1990, 2030)) for _ in range(rng.randint(0, 3))]  # none at all is a request, too
             acctnum = rng.choice([None, caller_str(rng, 32, cfg["_entity_strings"])])
             recid = rng.choice([None, caller_str(rng, 32, cfg["_entity_strings"])])
             data = client.request_tax1099(password, *years, acctnum=acctnum, recid=recid, dryrun=True).read()
